@@ -489,3 +489,39 @@ PROPS = {
                      'distinct = distinct (rule, instance descriptor) pairs',
     },
 }
+
+
+# what the later rounds added to each check (kept apart from the original texts above)
+_ADDENDA = {
+    'C02': ' Also: L31 (no single non-blocking lock attempt), L1b (shared-reference writers touch the DashMap once), L8 (the shard amount is a power of two >= 2 '
+           'under every pool size), G14 / G15, and the library merge / view rules L4, L6, L7, L13 on the parallel index types.',
+    'C03': ' Also: L4 on the lattice index types, L10.C / L10.PO / L10.W / L10.SO through L10, and G17 (rows with equal keys are joined when the indices are '
+           'rebuilt - open finding, see known_findings.txt).',
+    'C04': ' Also: the library protocol rules L4, L6, L7, L13; corpus shapes: aggregate result used by a later clause, lattice values written as expressions '
+           'under negation / aggregation, aggregators given as parenthesised expressions.',
+    'C05': ' Also: G14 / G15 (parallel row ids, lattice insertion mutex), L31, L1b, and the library protocol rules L4, L6, L7, L13.',
+    'C06': ' Also: G16 (relation initialisers are evaluated in textual order), L13, L4, L7.',
+    'C08': ' Also: twins for attached conditions, disjunctions, struct patterns / expressions, fresh-name spaces, scoping inside macro-body expressions (block let, '
+           'closure, match arm, guard), aggregations, empty macro bodies, unary arguments; M3, M4 (incl. the Agg arms), M5 on the macro crate.',
+    'C09': ' Also: include next to re-declarations / with aggregation / with a lattice / with inner attributes, G16, the update_indices rules (G3.ui, G4.ui), R1 on '
+           'ascent_run! programs with captured locals spelled like generated names, initialised relations read only in their own recursive stratum.',
+    'C10': ' Also: L15 path-enumerating, L13, L28, L33 (combine keeps one-element classes), L34 (no element-level exclusion in the delta views), L22 ordering / '
+           'hinge / unconditional completion.',
+    'C11': ' Also: L13, L14 guard rule (a step may only stand under an emptiness test of its own operands), L22 ordering / hinge / unconditional completion, L29.',
+    'C12': ' Also: L13, L28, L29, L30 (scan source of the union-find total), L32 (class ids are taken after the last collapsing call), L22 as for C10.',
+    'C13': ' Also: the library protocol rules L4, L6, L7, L13; G17 (rows of a lattice relation with equal keys are joined when the indices are rebuilt - open '
+           'finding, see known_findings.txt).',
+    'C14': ' Also: the library protocol rules L4, L6, L7, L13.',
+    'C15': ' Also: the converse clause (every family crate of the well-formed corpus compiles), a deadline for hanging expansions, witnesses next to an '
+           'include_source!, unknown relation / lattice attributes (identifier and path), uninvoked recursive macros, @-pattern rebinding; M3 on the pattern walkers.',
+    'C16': ' Also: L10.B (bound tests), L10.T (late snapshot), L10.C (case table of the flat lattice ConstPropagation decided over 4 x 4 abstract pairs), L10.PO '
+           '(undefined intermediate comparisons are handed on), L10.W (change flag across a swap of the receiver), L10.SO (inclusion order under containment tests).',
+    'C17': ' Also: L11 mean accumulates in f64, count uses a size hint only under lower == upper, percentile ranks over the multiset, L11.all (no row-dropping adaptor).',
+    'C19': ' Also: L13, L27 (whole-index walks leave no shard out), L31, L1b, L9 on the slot index of CRelNoIndex, L4 O2c (collection-valued overwriting insert) and '
+           'quiet early exits in the merge loops.',
+    'C20': ' Also: L8 lower bound of the shard amount over all pool sizes, L13, L27, L1 / L1b / L31 (an insertion that is not one critical section makes the result '
+           'depend on the pool size).',
+}
+for _pid, _txt in _ADDENDA.items():
+    if _pid in PROPS and 'explanation' in PROPS[_pid]:
+        PROPS[_pid]['explanation'] = PROPS[_pid]['explanation'] + _txt
